@@ -442,8 +442,7 @@ func (p *parser) InstantiateGenericFunction(genericFunc *ast.FuncDecl, genericTy
 	if ast.IsExternFunc(genericFunc) {
 		// add the instantiation to prevent recursion
 		genericFunc.Generic.Instantiations[genericModule] = append(genericFunc.Generic.Instantiations[p.module], &decl)
-		verifInst("new", genericFunc, genericModule, &decl, 0)
-		verifInst("done", genericFunc, genericModule, &decl, 0)
+		verifInst("extern", genericFunc, genericModule, &decl, 0)
 		return &decl, nil
 	}
 
